@@ -41,7 +41,7 @@ package unshare
 //@   requires r.ExecFile < 2147483648 && len(r.Files) < 1048576
 //@   requires forall j int, k int :: 0 <= j && j < k && k < len(r.Mounts) ==> r.Mounts[j].Target != r.Mounts[k].Target
 //@   requires forall k int :: 0 <= k && k < len(r.Mounts) ==> r.Mounts[k].Target != nil && r.Mounts[k].Flags & 32 == 0 && r.Mounts[k].Target != elemaddr(forkexec.slash, 0)
-//@   assigns T.kill_count, T.kill_last_pid, T.kill_last_sig, P.st, S._all, W._all, FD._all, K._all
+//@   assigns T.kill_count, T.kill_last_pid, T.kill_last_sig, P.st, S._all, W._all, FD._all, K._all, U._all
 //@   callsite (*Runner).Start: assert @C04 r.NoNewPrivs && r.DropCaps && r.CloneFlags == 906100736 && r.UnshareCgroupAfterSync && !r.Ptrace
 //@   ensures @C09 int(result.Status) == 8 ==> len(result.Error) > 0
 //@   callsite return: assert @C09 uint64(userMem) == uint64(rusage.Maxrss << 10)
